@@ -156,14 +156,12 @@ fn exact_phase_recognition_one_coeff() {
     let s = Scalar4(c);
     let got = s.exact_phase_and_sqrt2_pow();
     let want = oracle(&s).map(|(k, p)| (Phase::new(Rational64::new(k as i64, 4)), p));
-    // a zero scalar has no coefficient to read: the code panics on `find(..).unwrap()`; excluded here, reported separately
-    kani::assume(d.val != 0);
     assert!(got == want, "exact_phase_and_sqrt2_pow (one coefficient): +-2^m omega^i is recognised with k = i or i + 4 and p = 2m, anything else is None");
     kani::cover!(want.is_some() && sgn(&d));
     kani::cover!(want.is_none());
 }
 
-/// quick-tier stand-in for the two-coefficient branch (BOUNDED: mantissas in {0, 2^63}, exponents in {e, e+1} for one
+/// cheaper stand-in for the two-coefficient branch (BOUNDED: mantissas in {0, 2^63}, exponents in {e, e+1} for one
 /// symbolic e in a window of 8); the full-width harness `exact_phase_recognition` runs in the thorough tier
 #[kani::proof]
 #[kani::unwind(5)]
